@@ -9,7 +9,8 @@ For every strategy x smoother:
     that is active or deactivated on that level and does not lie on a Dirichlet face ("newly added dofs"), contains no
     Dirichlet dof, and hs.dirichlet_dofs(lv) is what the model says;
   * the exact discrete solution (direct solve on the non-Dirichlet dofs, zero on the Dirichlet dofs -- the usage of
-    test/test_localmg.py) is a fixed point of local_mg_step(...):  |x - step(x)| <= 1e-9 |x|, for two right-hand sides;
+    test/test_localmg.py) is a fixed point of local_mg_step(...):  |x - step(x)| <= 1e-9 |x|, for the load of f = 1
+    and (thorough tier) a distinct-integer load;
   * smoothers exact and symmetric_gs: the error propagation E is assembled on every non-Dirichlet unit vector and
     A_nd - E^T A E >= -1e-9 |A|  (energy norm of the error never increases, for every starting vector).
 """
@@ -169,7 +170,6 @@ def check(case):
         # ---- smoothing sets
         try:
             inds = hs.indices_to_smooth(strat)
-            sets_ok = True
             if len(inds) != L:
                 bad("mg:sets:%s:levels" % strat, "indices_to_smooth(%r) has %d entries for %d levels" % (strat, len(inds), L), strategy=strat)
                 continue
@@ -181,15 +181,12 @@ def check(case):
                 if got and (min(got) < 0 or max(got) >= size):
                     bad("mg:sets:%s:range" % strat, "indices_to_smooth(%r)[%d] = %s has indices outside the %d dofs of virtual level %d"
                         % (strat, lv, sorted(got), size, lv), strategy=strat)
-                    sets_ok = False
                 if not new <= got:
                     bad("mg:sets:%s:missing-new" % strat, "indices_to_smooth(%r)[%d] = %s lacks the newly added non-Dirichlet dofs %s of level %d"
                         % (strat, lv, sorted(got), sorted(new - got), lv), strategy=strat)
-                    sets_ok = False
                 if got & dirs:
                     bad("mg:sets:%s:dirichlet" % strat, "indices_to_smooth(%r)[%d] = %s contains the Dirichlet dofs %s"
                         % (strat, lv, sorted(got), sorted(got & dirs)), strategy=strat)
-                    sets_ok = False
         except Exception as e:
             bad("mg:exception:indices_to_smooth:%s:%s" % (strat, type(e).__name__), "indices_to_smooth(%r) raised %r" % (strat, e), strategy=strat)
             continue
